@@ -9,7 +9,7 @@ use crate::props::read_props::{check_summary, check_walks, gen_accepted, opt_rec
 use crate::refdec::{self, Decoded};
 use crate::runner::*;
 use crate::src::Src;
-use dnssector::{Compress, Renamer};
+use dnssector::{Compress, DNSSector, Renamer};
 use serde_json::json;
 
 // ---------------------------------------------------------------------------
@@ -67,11 +67,70 @@ pub fn c05_oracle(bytes: &[u8], d: &Decoded, src: &mut Src, st: &mut Stats) -> P
         }
         st.class("boundary-query");
     }
+    // decompression in place through an iterator: on the freshly parsed object, and again after the
+    // object was re-compressed by an identity rename (the object must notice that its bytes hold pointers again)
+    if src.chance(40) && !d.msg.qd.is_empty() {
+        let twice = src.chance(128);
+        let b = bytes.to_vec();
+        let qn = d.msg.qd[0].name.clone();
+        let r = catch(move || -> Result<(Vec<u8>, Option<(Vec<u8>, Vec<u8>)>), String> {
+            let mut pp = DNSSector::new(b).and_then(|x| x.parse()).map_err(|e| e.to_string())?;
+            {
+                let mut q = pp.into_iter_question().ok_or("no question")?;
+                dnssector::DNSIterable::uncompress(&mut q).map_err(|e| e.to_string())?;
+            }
+            let first = pp.packet().to_vec();
+            if !twice {
+                return Ok((first, None));
+            }
+            let rn = if qn.is_root() { Name::from_dotted("absent.invalid").to_wire() } else { qn.to_wire() };
+            pp.rename_with_raw_names(&rn, &rn, true).map_err(|e| format!("identity rename: {}", e))?;
+            let mid = pp.packet().to_vec();
+            {
+                let mut q = pp.into_iter_question().ok_or("no question")?;
+                dnssector::DNSIterable::uncompress(&mut q).map_err(|e| e.to_string())?;
+            }
+            Ok((first, Some((mid, pp.packet().to_vec()))))
+        });
+        match r {
+            Err(pm) => fail!(format!("C05 in-place-decompression-panic {}", panic_sig(&pm)), "{}; packet={}", pm, hex_abbrev(bytes)),
+            Ok(Err(e)) => fail!("C05 in-place-decompression-fails", "{}; packet={}", e, hex_abbrev(bytes)),
+            Ok(Ok((first, second))) => {
+                ensure!(first == out, "C05 in-place-decompression-differs", "iterator uncompress() left {} but Compress::uncompress gives {}; input={}", hex_abbrev(&first), hex_abbrev(&out), hex_abbrev(bytes));
+                st.class("in-place:fresh-object");
+                if let Some((mid, last)) = second {
+                    // what the pure function makes of the re-compressed bytes
+                    let want = match catch(|| Compress::uncompress(&mid).map_err(|e| e.to_string())) {
+                        Ok(Ok(w)) => w,
+                        other => fail!("C05 uncompress-of-renamed-packet-fails", "{:?}; packet={}", other, hex_abbrev(&mid)),
+                    };
+                    ensure!(
+                        last == want,
+                        "C05 in-place-decompression-after-recompression-differs",
+                        "object decompressed, renamed (identity: re-compresses) and decompressed again holds {} but Compress::uncompress of its bytes before that gives {}; input={}",
+                        hex_abbrev(&last),
+                        hex_abbrev(&want),
+                        hex_abbrev(bytes)
+                    );
+                    let d3 = refdec::decode(&last, refdec::Opts::default());
+                    ensure!(matches!(&d3, Ok(x) if !x.has_pointer()), "C05 in-place-output-has-pointer", "{}", hex_abbrev(&last));
+                    if mid != first {
+                        st.class("in-place:after-recompression(with pointers)");
+                    }
+                }
+            }
+        }
+    }
     Ok(())
 }
 
 fn c05_case(data: &[u8], st: &mut Stats) -> PResult {
     let mut src = Src::new(data);
+    crate::history::case(&mut src, st, 6, c05_body)
+}
+
+fn c05_body(src: &mut Src, st: &mut Stats) -> PResult {
+    let mut src = src.fork();
     let (bytes, d, tag) = match gen_accepted(&mut src, &GenOpts::default()) {
         Some(x) => x,
         None => {
@@ -115,7 +174,7 @@ pub fn replay_c05(data: &[u8]) -> PResult {
 pub fn check_c05(ctx: &Ctx, known: &KnownFindings) -> Report {
     let mut rep = Report::new("C05");
     let ks = known_sigs(known, "C05");
-    rep.rule = "accepted packets (as C03) x every record-boundary offset (all when <= 10 boundaries, else first/last two + 6 drawn). Oracle: uncompress Ok; output accepted by parser and reference; first 12 bytes identical; decoded message identical (names byte-exact, rdata of NS/CNAME/PTR/MX/SOA expanded, everything else verbatim); output equals the unique canonical pointer-free encoding of the decoded message; no pointer in any understood name; second decompression is the identity; uncompress_with_previous_offset(x, b) returns the same bytes and the offset of the same boundary. Non-trivial: input holds >= 1 pointer; distinct = hash of packet.".into();
+    rep.rule = "accepted packets (as C03) x every record-boundary offset (all when <= 10 boundaries, else first/last two + 6 drawn). Oracle: uncompress Ok; output accepted by parser and reference; first 12 bytes identical; decoded message identical (names byte-exact, rdata of NS/CNAME/PTR/MX/SOA expanded, everything else verbatim); output equals the unique canonical pointer-free encoding of the decoded message; no pointer in any understood name; second decompression is the identity; uncompress_with_previous_offset(x, b) returns the same bytes and the offset of the same boundary; in-place decompression through an iterator leaves the same bytes, also on an object that was decompressed, re-compressed by an identity rename and decompressed again. About 1 case in 40 is a history case (fresh thread; 1-3 failing library calls on damaged copies of the packet first). Non-trivial: input holds >= 1 pointer; distinct = hash of packet.".into();
     rep.assumptions = vec!["uncompress_with_previous_offset is called with record-boundary offsets only (the property's quantifier)".into()];
     for (name, b) in crate::props::read_props::c03_regressions() {
         let r = catch(|| -> PResult {
@@ -128,7 +187,7 @@ pub fn check_c05(ctx: &Ctx, known: &KnownFindings) -> Report {
     let prop = (1500usize, c05_case);
     let r = drive(&prop, ctx.cases(500_000, 6_000_000), ctx, 5, &ks);
     rep.absorb(r);
-    rep.require(&["with-pointer", "pointer-free-input", "rdata:name1", "rdata:mx", "rdata:soa", "rdata:dname", "opt:First", "opt:Middle", "opt:Last", "opt:Only", "boundary-query"]);
+    rep.require(&["with-pointer", "pointer-free-input", "rdata:name1", "rdata:mx", "rdata:soa", "rdata:dname", "opt:First", "opt:Middle", "opt:Last", "opt:Only", "boundary-query", "in-place:fresh-object", "in-place:after-recompression(with pointers)"]);
     rep
 }
 
@@ -328,6 +387,11 @@ pub fn c06_oracle(u: &[u8], d: &Decoded, st: &mut Stats) -> PResult {
 
 fn c06_case(data: &[u8], st: &mut Stats) -> PResult {
     let mut src = Src::new(data);
+    crate::history::case(&mut src, st, 6, c06_body)
+}
+
+fn c06_body(src: &mut Src, st: &mut Stats) -> PResult {
+    let mut src = src.fork();
     let (m, tag) = gen_compress_message(&mut src);
     // either the all-literal encoding or the library-independent plain form of a compressed one
     let u = enc::encode(&m, Layout::Literal).bytes;
@@ -646,9 +710,36 @@ pub fn c07_oracle(bytes: &[u8], d: &Decoded, a: &RenameArgs, packet_level: bool,
                 ensure!(now.as_deref() == Some(bytes) || now.as_deref().and_then(refdec::decode_strict).map(|x| x.msg == d.msg).unwrap_or(false), "C07 failed-rename-changed-object", "{}", ctxs());
                 let b2 = now.unwrap();
                 let d2 = refdec::decode_strict(&b2).unwrap();
-                match catch(|| check_walks(&mut pp, &d2, &b2, 0, "C07")) {
+                match catch(|| -> PResult {
+                    check_walks(&mut pp, &d2, &b2, 0, "C07")?;
+                    check_summary(&mut pp, &d2, 2, "C07", false)
+                }) {
                     Err(pm) => fail!(format!("C07 object-unusable-after-failed-rename {}", panic_sig(&pm)), "{}; {}", pm, ctxs()),
                     Ok(r) => r?,
+                }
+                // second time round: the same object is renamed again, now with a target that fits
+                let t2 = Name::from_dotted("t2.example");
+                let t2w = t2.to_wire();
+                let sw2 = a.source.to_wire();
+                let want2 = model_rename(&d2.msg, &t2, &a.source, a.suffix);
+                let r2 = catch(move || {
+                    let r = pp.rename_with_raw_names(&t2w, &sw2, a.suffix).map_err(|e| e.to_string());
+                    (r, pp.packet.clone())
+                });
+                match (r2, want2) {
+                    (Err(pm), _) => fail!(format!("C07 rename-after-failed-rename-panic {}", panic_sig(&pm)), "{}; {}", pm, ctxs()),
+                    (Ok((Ok(()), Some(out2))), Ok((w, _))) => {
+                        let d3 = match refdec::decode_strict(&out2) {
+                            Some(x) => x,
+                            None => fail!("C07 rename-after-failed-rename-not-well-formed", "output={} {}", hex_abbrev(&out2), ctxs()),
+                        };
+                        ensure!(d3.msg.eq_ci(&w), "C07 rename-after-failed-rename-wrong-result", "after a rename that failed for length, renaming the same object to t2.example: {}; output={} {}", w.diff(&d3.msg, true), hex_abbrev(&out2), ctxs());
+                        st.class("rename-after-failed-rename");
+                    }
+                    (Ok((Err(_), _)), Err(())) => st.class("rename-after-failed-rename"),
+                    (Ok((Ok(()), _)), Err(())) => fail!("C07 overflow-not-reported", "second rename on the same object; {}", ctxs()),
+                    (Ok((Err(e), _)), Ok(_)) => fail!("C07 rename-fails", "second rename (target t2.example) on an object whose first rename failed for length: {:?}; {}", e, ctxs()),
+                    (Ok((Ok(()), None)), Ok(_)) => fail!("C07 object-unusable-after-rename", "no packet; {}", ctxs()),
                 }
             }
         }
@@ -750,6 +841,11 @@ fn c07_length_byte_case(src: &mut Src, st: &mut Stats) -> PResult {
 
 fn c07_case(data: &[u8], st: &mut Stats) -> PResult {
     let mut src = Src::new(data);
+    crate::history::case(&mut src, st, 6, c07_body)
+}
+
+fn c07_body(src: &mut Src, st: &mut Stats) -> PResult {
+    let mut src = src.fork();
     if src.chance(12) {
         return c07_length_byte_case(&mut src, st);
     }
@@ -811,7 +907,7 @@ pub fn c07_regressions() -> Vec<(&'static str, Message, RenameArgs, bool)> {
 pub fn check_c07(ctx: &Ctx, known: &KnownFindings) -> Report {
     let mut rep = Report::new("C07");
     let ks = known_sigs(known, "C07");
-    rep.rule = "accepted packets (small, any layout, OPT anywhere) x (target, source, exact|suffix): source drawn from the suffixes present in the packet at every label depth (plain, case-flipped), near-misses (partial label, one byte changed, bit 5 of a non-letter byte flipped, one extra label), absent names; target generated, = source, single label, or 64..255 bytes long (overflow). Both Renamer::rename_with_raw_names and the ParsedPacket wrapper. Oracle: specification of renaming applied to the decoded message; overflow => Err (object unchanged and usable); else Ok, output accepted by parser and reference and equal to the renamed model up to name case (header, counts, order, types, classes, TTLs, opaque data, OPT record and its position exact); identity rename leaves the message unchanged; after the wrapper the object walks and summarises like a fresh parse. Non-trivial: >= 1 name rewritten or a near-miss source; distinct = hash of (packet, args).".into();
+    rep.rule = "accepted packets (small, any layout, OPT anywhere) x (target, source, exact|suffix): source drawn from the suffixes present in the packet at every label depth (plain, case-flipped), near-misses (partial label, one byte changed, bit 5 of a non-letter byte flipped, one extra label), absent names; target generated, = source, single label, or 64..255 bytes long (overflow). Both Renamer::rename_with_raw_names and the ParsedPacket wrapper. Oracle: specification of renaming applied to the decoded message; overflow => Err (object unchanged and usable, summaries like a fresh parse, and a second rename of the same object with a target that fits gives the specified result); else Ok, output accepted by parser and reference and equal to the renamed model up to name case (header, counts, order, types, classes, TTLs, opaque data, OPT record and its position exact); identity rename leaves the message unchanged; after the wrapper the object walks and summarises like a fresh parse. Non-trivial: >= 1 name rewritten or a near-miss source; distinct = hash of (packet, args).".into();
     rep.assumptions = vec![
         "source and target are well-formed, pointer-free, non-root raw names within the label character policy".into(),
         "domain = packets accepted by both parser and reference".into(),
@@ -843,6 +939,7 @@ pub fn check_c07(ctx: &Ctx, known: &KnownFindings) -> Report {
         "source:near-miss-extra-label",
         "source:near-miss-length-byte-inside-label",
         "source:near-miss-bit5-of-non-letter",
+        "rename-after-failed-rename",
         "source:absent",
         "mode:suffix",
         "mode:exact",
